@@ -123,7 +123,7 @@ func sanitize(s string) string {
 	var sb strings.Builder
 	for _, r := range s {
 		switch {
-		case r >= 'a' && r <= 'z', r >= 'A' && r <= 'Z', r >= '0' && r <= '9', r == '_', r == '!', r == '.', r == '$', r == '#':
+		case r >= 'a' && r <= 'z', r >= 'A' && r <= 'Z', r >= '0' && r <= '9', r == '_', r == '!', r == '.', r == '$':
 			sb.WriteRune(r)
 		default:
 			sb.WriteByte('_')
@@ -811,4 +811,42 @@ func (tb *TB) Script(logicHeader string, asserts []*Term, extra []string) string
 		fmt.Fprintf(&sb, "(assert %s)\n", b.String())
 	}
 	return sb.String()
+}
+
+// SimplifyUnder drops conjuncts of claim that appear syntactically among the
+// conjuncts of pc (hash-consing makes identical formulas identical nodes).
+func (tb *TB) SimplifyUnder(pc, claim *Term) *Term {
+	have := map[int]bool{}
+	var collect func(t *Term)
+	collect = func(t *Term) {
+		if t.Op == "and" {
+			for _, a := range t.Args {
+				collect(a)
+			}
+			return
+		}
+		have[t.id] = true
+	}
+	collect(pc)
+	var simp func(t *Term) *Term
+	simp = func(t *Term) *Term {
+		if have[t.id] {
+			return tb.True
+		}
+		switch t.Op {
+		case "and":
+			var out []*Term
+			for _, a := range t.Args {
+				out = append(out, simp(a))
+			}
+			return tb.And(out...)
+		case "=>":
+			if have[t.Args[0].id] {
+				return simp(t.Args[1])
+			}
+			return tb.Implies(t.Args[0], simp(t.Args[1]))
+		}
+		return t
+	}
+	return simp(claim)
 }
